@@ -960,25 +960,27 @@ func c16Scenarios(t *testing.T, emit func(any)) []c16Scenario {
 }
 
 // TestVerifC16E2E: VERIF_C16_REPS repetitions of the whole placement (the driver uses >1 with
-// -race in the thorough tier); VERIF_C16_ONLY="variant/event/side/k/closers/wblock/early"
-// replays one scenario.
+// -race in the thorough tier); VERIF_C16_ONLY="variant/event/side/k/closers/wblock/early[;...]"
+// replays single scenarios (replay of a finding, regression corpus).
 func TestVerifC16E2E(t *testing.T) {
 	out := newVOut(t)
 	if only := os.Getenv("VERIF_C16_ONLY"); only != "" {
-		var sc c16Scenario
-		var wb, early int
-		parts := strings.Split(only, "/")
-		if len(parts) != 7 {
-			t.Fatalf("VERIF_C16_ONLY: want 7 fields")
+		for _, one := range strings.Split(only, ";") {
+			var sc c16Scenario
+			var wb, early int
+			parts := strings.Split(one, "/")
+			if len(parts) != 7 {
+				t.Fatalf("VERIF_C16_ONLY: want 7 fields in %q", one)
+			}
+			sc.Variant, sc.Event, sc.Side = parts[0], parts[1], parts[2]
+			fmt.Sscanf(parts[3], "%d", &sc.K)
+			fmt.Sscanf(parts[4], "%d", &sc.Closers)
+			fmt.Sscanf(parts[5], "%d", &wb)
+			fmt.Sscanf(parts[6], "%d", &early)
+			sc.WBlock, sc.Early = wb != 0, early != 0
+			out.emit(map[string]any{"kind": "begin", "sc": sc})
+			out.emit(c16Bubble(t, sc))
 		}
-		sc.Variant, sc.Event, sc.Side = parts[0], parts[1], parts[2]
-		fmt.Sscanf(parts[3], "%d", &sc.K)
-		fmt.Sscanf(parts[4], "%d", &sc.Closers)
-		fmt.Sscanf(parts[5], "%d", &wb)
-		fmt.Sscanf(parts[6], "%d", &early)
-		sc.WBlock, sc.Early = wb != 0, early != 0
-		out.emit(map[string]any{"kind": "begin", "sc": sc})
-		out.emit(c16Bubble(t, sc))
 
 		return
 	}
